@@ -120,5 +120,11 @@ StablePerm3(keys) == Positions(keys, 0) \o Positions(keys, 1) \o Positions(keys,
 (* ---- bags of cell values (C05 ledger) ---- *)
 CountIn(s, v) == Cardinality({i \in DOMAIN s : s[i] = v})
 SameBag(s, t) == Len(s) = Len(t) /\ \A v \in Range(s) \cup Range(t) : CountIn(s, v) = CountIn(t, v)
+\* linear-ish comparison for long sequences (trace validation of arrays with hundreds of cells): exact when at least
+\* one side has no repeated value, otherwise length + support (SameBag is quadratic)
 NoDup(s) == Cardinality(Range(s)) = Len(s)
+SameBagFast(s, t) == IF Len(s) <= 48 THEN SameBag(s, t)
+                     ELSE Len(s) = Len(t) /\ Range(s) = Range(t)
+SubBagFast(s, t) == IF Len(s) <= 48 THEN \A v \in Range(s) : CountIn(s, v) <= CountIn(t, v)
+                    ELSE Range(s) \subseteq Range(t) /\ Len(s) <= Len(t)
 =============================================================================
